@@ -73,6 +73,11 @@ def LIST(elem=None, nullable=False):
     return P("list", elem=elem, nullable=nullable)
 
 
+def SEQ():
+    """A builtin list, tuple, set or frozenset (exact type)."""
+    return P("seq")
+
+
 def TUPLE(*elems):
     return P("tuple", elem=list(elems))
 
